@@ -872,3 +872,322 @@ class RefreshMonitor(Monitor):
                     "emission-payload", f"{cls}: refresh carried {payload!r}, expected {want!r}",
                     f"C20/payload/{cls}"))
         return out
+
+
+# =============================================================================== C10
+class FeatureSwitchMonitor(Monitor):
+    """Reference model: the set of enabled keys; registry = static + enabled."""
+
+    name = "features"
+
+    def start(self, sess):
+        t = sess.tracks
+        self.available = set(t.annotators.all_features)
+        self.enabled = set(t.annotators.features)
+        self.static = set(t.features) - self.available
+        # keys whose values are asserted (enabled with recompute or from construction)
+        self.trusted = set(self.enabled) - {t.features.tracklet_key, t.features.lineage_key}
+        self.frozen: dict[str, dict] = {}  # disabled key -> {element: (dict id, value)}
+        return self._registry(sess, "construction")
+
+    def _registry(self, sess, where):
+        t = sess.tracks
+        self.evals += 1
+        out = []
+        reg = set(t.features)
+        if reg != self.static | self.enabled:
+            out.append(violation(
+                "registry", f"after {where}: registry {sorted(reg)} != static "
+                f"{sorted(self.static)} + enabled {sorted(self.enabled)}",
+                f"C10/registry/{where.split(' ')[0]}"))
+        act = set(t.annotators.features)
+        if act != self.enabled:
+            out.append(violation(
+                "activation", f"after {where}: annotators manage {sorted(act)}, model says "
+                f"{sorted(self.enabled)}", f"C10/activation/{where.split(' ')[0]}"))
+        return out
+
+    def _values(self, sess, keys, where):
+        """Reference values for the given (trusted) keys in the current state."""
+        t = sess.tracks
+        out = []
+        tk, lk = t.features.tracklet_key, t.features.lineage_key
+        if tk in keys:
+            self.evals += 1
+            for c, m in checks.track_partition(t):
+                out.append(violation("values", f"{where}: {tk}: {m}", f"C10/values/{tk}"))
+                break
+        if lk in keys:
+            self.evals += 1
+            for c, m in checks.lineage_partition(t):
+                out.append(violation("values", f"{where}: {lk}: {m}", f"C10/values/{lk}"))
+                break
+        if t.segmentation is not None:
+            rp = [k for k in keys if k not in (tk, lk, "iou")]
+            if rp:
+                p, n = checks.regionprops_values(t, only=set(rp))
+                self.evals += n
+                for c, m in p:
+                    out.append(violation("values", f"{where}: {m}", f"C10/values/{c}"))
+                    break
+            if "iou" in keys:
+                p, n = checks.iou_values(t)
+                self.evals += sum(n.values())
+                for c, m in p:
+                    out.append(violation("values", f"{where}: {m}", f"C10/values/iou"))
+                    break
+        return out
+
+    def _snapshot(self, t, key):
+        g = t.graph
+        # the identity of the attribute dict (kept alive by the snapshot, so its id cannot be
+        # reused) tells whether the element was re-created
+        if key == "iou":
+            return {(int(u), int(v)): (a, norm_(a.get(key)))
+                    for u, v, a in g.edges(data=True)}
+        return {int(n): (a, norm_(a.get(key))) for n, a in g.nodes(data=True)}
+
+    def step(self, sess, rec):
+        if not is_real_call(rec):
+            return []
+        t = sess.tracks
+        k = rec.op["op"]
+        out = []
+        if k == "features":
+            en = list(rec.op.get("enable") or [])
+            dis = list(rec.op.get("disable") or [])
+            unknown = [x for x in en + dis if x not in self.available]
+            self.count("feature-ops")
+            if unknown:
+                self.count("unknown-key-ops")
+                self.evals += 1
+                if rec.out.ok or rec.out.exc_type != "KeyError":
+                    out.append(violation(
+                        "unknown-key", f"{rec.op} with unknown {unknown}: "
+                        f"{'accepted' if rec.out.ok else rec.out.exc_type}, expected KeyError",
+                        "C10/unknown-key/outcome"))
+                elif rec.pre != rec.post:
+                    out.append(violation(
+                        "unknown-key", f"{rec.op} raised KeyError but changed "
+                        f"{diff_sections(rec.pre, rec.post)}", "C10/unknown-key/changed"))
+                return out
+            if not rec.out.ok:
+                out.append(violation("feature-op-raised", f"{rec.op} raised {rec.out.exc_type}: "
+                                     f"{rec.out.exc_msg}", f"C10/raised/{rec.out.exc_type}"))
+                return out
+            idkeys = {t.features.tracklet_key, t.features.lineage_key}
+            for x in en:
+                self.enabled.add(x)
+                self.frozen.pop(x, None)
+                if rec.op.get("recompute", True) and x not in idkeys:
+                    # (re-numbering the ids makes older history entries refer to stale ids;
+                    # their values are asserted right after enabling only - C04/C05 cover
+                    # the rest)
+                    self.trusted.add(x)
+                    self.count("enable-recompute")
+                else:
+                    self.trusted.discard(x)
+                    self.count("enable-no-recompute")
+            for x in dis:
+                was = x in self.enabled
+                self.enabled.discard(x)
+                self.trusted.discard(x)
+                if was or x not in self.frozen:
+                    self.frozen[x] = self._snapshot(t, x)
+                self.count("disable")
+            self.keys.add(f"switch/en={sorted(en)}/dis={sorted(dis)}/"
+                          f"rc={rec.op.get('recompute', True)}")
+            out += self._registry(sess, f"features {rec.op}")
+            if not out and en and rec.op.get("recompute", True):
+                out += self._values(sess, set(en), f"after enabling {en} with recomputation")
+            return out
+        # ---- edits / undo / redo
+        if k == "update_attrs" and rec.op["node"] in rec.pre["nodes"]:
+            prot = set(self.available) | {t.features.time_key}
+            keys = set(rec.op["attrs"])
+            self.evals += 1
+            if keys & prot:
+                self.count("protected-attr-offers")
+                self.keys.add(f"protected/{sorted(keys & prot)}/"
+                              f"enabled={bool(keys & self.enabled)}")
+                if rec.out.ok or rec.out.exc_type != "ValueError":
+                    out.append(violation(
+                        "protected", f"UserUpdateNodeAttrs {rec.op['attrs']} on managed/time "
+                        f"key: {'accepted' if rec.out.ok else rec.out.exc_type}, expected "
+                        "ValueError", f"C10/protected/{sorted(keys & prot)[0]}"))
+                elif rec.pre != rec.post:
+                    out.append(violation("protected", "refused protected update changed "
+                                         f"{diff_sections(rec.pre, rec.post)}",
+                                         "C10/protected/changed"))
+            else:
+                self.count("custom-attr-offers")
+                if not rec.out.ok:
+                    out.append(violation("custom-attr-refused", f"{rec.op} raised "
+                                         f"{rec.out.exc_type}: {rec.out.exc_msg}",
+                                         "C10/custom-attr-refused"))
+        out += self._registry(sess, f"{k}")
+        # trusted keys stay right (this is where C08/C09 meet C10)
+        if not out and rec.out.ok:
+            out += self._values(sess, self.trusted & self.enabled, f"after {k}")
+        # disabled features are no longer changed by edits
+        if not out:
+            for key, snap in self.frozen.items():
+                now = self._snapshot(t, key)
+                for el in list(snap):
+                    if el not in now or now[el][0] is not snap[el][0]:
+                        del snap[el]  # element did not exist continuously
+                        continue
+                    self.evals += 1
+                    if now[el][1] != snap[el][1]:
+                        out.append(violation(
+                            "disabled-changed", f"disabled feature {key!r} of {el} changed "
+                            f"{snap[el][1]!r} -> {now[el][1]!r} by {k} {sig(rec)}",
+                            f"C10/disabled-changed/{key}/{OP2CLS[k]}"))
+                        break
+                if out:
+                    break
+                self.count("frozen-comparisons", len(snap))
+        return out
+
+
+def norm_(v):
+    from .canon import norm
+
+    return norm(v)
+
+
+# =============================================================================== C16
+class ReadOnlyMonitor(Monitor):
+    """deep snapshot (incl. counters) before and after read-only operations."""
+
+    name = "readonly"
+
+    def __init__(self, rate=0.6):
+        super().__init__()
+        self.rate = rate
+
+    def start(self, sess):
+        self.rng = random.Random(sess.cfg.seed ^ 0xC16)
+        return self.probe(sess, "construction", 3)
+
+    def step(self, sess, rec):
+        if self.rng.random() > self.rate:
+            return []
+        return self.probe(sess, rec.op["op"], 2)
+
+    def operations(self, sess):
+        from funtracks.import_export import export_to_csv, export_to_geff, save_tracks
+        from funtracks.import_export._utils import filter_graph_with_ancestors
+        from funtracks.import_export.geff._export import split_position_attr
+
+        t = sess.tracks
+        rng = self.rng
+        nodes = [int(n) for n in t.graph.nodes]
+        edges = list(t.graph.edges)
+        wd = sess.workdir
+        sub = set(rng.sample(nodes, rng.randint(1, len(nodes)))) if nodes else None
+        uniq = f"{self.evals}-{rng.randrange(1 << 30)}"
+        ops = {}
+        if nodes:
+            ops["export_to_csv"] = lambda: export_to_csv(t, wd / f"a{uniq}.csv")
+            ops["export_to_csv/display"] = lambda: export_to_csv(
+                t, wd / f"b{uniq}.csv", use_display_names=True)
+            ops["export_to_csv/subset"] = lambda: export_to_csv(
+                t, wd / f"c{uniq}.csv", node_ids=sub)
+            ops["export_to_csv/colors"] = lambda: export_to_csv(
+                t, wd / f"d{uniq}.csv",
+                color_dict={n: np.array([0.1, 0.5, 0.9, 1.0]) for n in nodes})
+            if t.segmentation is not None:
+                ops["export_to_csv/seg"] = lambda: export_to_csv(
+                    t, wd / f"e{uniq}.csv", export_seg=True, seg_path=wd / f"e{uniq}.tif")
+            ops["export_to_geff"] = lambda: export_to_geff(t, wd / f"g{uniq}.zarr")
+            ops["export_to_geff/subset"] = lambda: export_to_geff(
+                t, wd / f"h{uniq}.zarr", node_ids=sub)
+            ops["export_to_geff/zarr3"] = lambda: export_to_geff(
+                t, wd / f"i{uniq}.zarr", zarr_format=3)
+        ops["save_tracks"] = lambda: save_tracks(t, wd / f"s{uniq}")
+        ops["split_position_attr"] = lambda: split_position_attr(t)
+        if nodes:
+            ops["filter_graph_with_ancestors"] = lambda: filter_graph_with_ancestors(
+                t.graph, set(sub))
+            n0 = rng.choice(nodes)
+            ops["queries/node"] = lambda: (
+                t.nodes(), t.edges(), t.in_degree(), t.out_degree(),
+                t.in_degree(np.array([n0])), t.out_degree(np.array([n0])),
+                t.predecessors(n0), t.successors(n0), t.get_positions([n0]),
+                t.get_positions(nodes, incl_time=True), t.get_position(n0), t.get_time(n0),
+                t.get_times(nodes), t.get_pixels(n0), t.get_node_attr(n0, "nope"),
+                t.get_nodes_attr(nodes, t.features.time_key), t.get_track_id(n0),
+                t.get_lineage_id(n0))
+            tid = t.get_track_id(n0)
+            tt = t.get_time(n0)
+            ops["queries/track"] = lambda: (
+                [t.get_track_neighbors(tid, x) for x in range(-1, 8)],
+                [t.has_track_id_at_time(tid, x) for x in range(-1, 8)],
+                t.get_track_neighbors(9999, tt), t.has_track_id_at_time(9999, tt),
+                t.get_next_track_id(), t.get_next_lineage_id(), t.max_track_id,
+                dict(t.track_id_to_node), t.get_available_features())
+            ops["queries/deprecated"] = lambda: (
+                t.get_areas(nodes), t.get_area(n0), t.node_id_to_track_id, t.time_attr,
+                t.pos_attr)
+        if edges:
+            e0 = rng.choice(edges)
+            ops["queries/edge"] = lambda: (
+                t.get_edge_attr(e0, "iou"), t.get_edges_attr(edges, "iou"),
+                t.get_ious(edges), t.get_iou(e0))
+        return ops
+
+    def probe(self, sess, where, k):
+        import shutil
+
+        from . import env
+
+        t = sess.tracks
+        if not hasattr(sess, "workdir"):
+            sess.workdir = env.workdir("c16")
+        out = []
+        ops = self.operations(sess)
+        names = self.rng.sample(sorted(ops), min(k, len(ops)))
+        cfgtag = (f"scale={'none' if t.scale is None else 'given'}/"
+                  f"pos={'axes' if isinstance(t.features.position_key, list) else 'single'}/"
+                  f"{'seg' if t.segmentation is not None else 'noseg'}")
+        for name in names:
+            before = deep(t, counters=True)
+            mark = shim.REC.mark()
+            err = None
+            with warnings.catch_warnings():
+                warnings.simplefilter("ignore")
+                try:
+                    ops[name]()
+                except Exception as e:  # the operation may refuse; state must still be same
+                    err = f"{type(e).__name__}: {str(e)[:120]}"
+            after = deep(t, counters=True)
+            emitted = [e for e in shim.REC.window(mark) if e[0] == "emit"]
+            self.evals += 1
+            self.count(f"op-{name.split('/')[0]}")
+            self.keys.add(f"{name}/{cfgtag}")
+            if err:
+                self.count("op-raised")
+                self.keys.add(f"raised/{name}/{err.split(':')[0]}")
+                sess.readonly_errors = getattr(sess, "readonly_errors", [])
+                sess.readonly_errors.append(f"{name}: {err}")
+            if before != after:
+                out.append(violation(
+                    "read-only-changed-state", f"{name} ({cfgtag}) after {where} changed "
+                    f"{diff_sections(before, after)}: {diff(before, after)[:5]}",
+                    f"C16/changed/{name}/{'+'.join(diff_sections(before, after))}"))
+                break
+            if emitted:
+                out.append(violation("read-only-emitted", f"{name} emitted refresh",
+                                     f"C16/emitted/{name}"))
+                break
+        shutil.rmtree(sess.workdir, ignore_errors=True)
+        sess.workdir.mkdir(parents=True, exist_ok=True)
+        return out
+
+    def finish(self, sess):
+        import shutil
+
+        if hasattr(sess, "workdir"):
+            shutil.rmtree(sess.workdir, ignore_errors=True)
+        return []
